@@ -700,6 +700,7 @@ func runDeterminism(c *core.Ctx) {
 		}
 	}
 	seamLive := false
+	var bigPairs [][2]int
 	report := func(v *core.Violation) {
 		if v != nil {
 			c.Violate(prop, v.Key, v.What, json.RawMessage(v.Replay))
@@ -747,10 +748,10 @@ func runDeterminism(c *core.Ctx) {
 					c.Outcome("deviation:same-output")
 				}
 			}
-			if maxDev >= 2 && len(devs) > 450 {
-				c.Note("determinism: pairs of deviations skipped for family %s (values %d): %d single deviations", fams[fi].Name, vi, len(devs))
+			if maxDev >= 2 && len(devs) > 120 {
+				bigPairs = append(bigPairs, [2]int{fi, vi}) // their pair space is spread over all shards below
 			}
-			if maxDev >= 2 && len(devs) <= 450 {
+			if maxDev >= 2 && len(devs) <= 120 {
 				for a := 0; a < len(devs); a++ {
 					for b := a + 1; b < len(devs); b++ {
 						if devs[a].occ == devs[b].occ {
@@ -800,6 +801,51 @@ func runDeterminism(c *core.Ctx) {
 			}
 		}
 	}
+	// pairs of deviations of the families with many single deviations: every shard recomputes the baseline (one
+	// execution) and takes every Shards-th pair, so that one family does not pin one worker for minutes
+	if maxDev >= 2 {
+		for fi := range fams {
+			for vi := range valueSets {
+				baseV := variant{Family: fi, Values: vi}
+				o0, occs := execute(fams, baseV, nil)
+				type dev struct{ occ, perm int }
+				var devs []dev
+				for i, oc := range occs {
+					for p := 1; p < vorder.Perms(oc.N); p++ {
+						devs = append(devs, dev{i, p})
+					}
+				}
+				if len(devs) <= 120 {
+					continue
+				}
+				if len(devs) > 800 {
+					if c.Shard == 0 {
+						c.Note("determinism: pairs of deviations skipped for family %s (values %d): %d single deviations", fams[fi].Name, vi, len(devs))
+					}
+					continue
+				}
+				k := int64(0)
+				for a := 0; a < len(devs); a++ {
+					for b := a + 1; b < len(devs); b++ {
+						if devs[a].occ == devs[b].occ {
+							continue
+						}
+						k++
+						if !c.Mine(k) {
+							continue
+						}
+						plan := map[int]int{devs[a].occ: devs[a].perm, devs[b].occ: devs[b].perm}
+						o, _ := execute(fams, baseV, plan)
+						c.Eval(1)
+						c.Distinct(fmt.Sprintf("%d|%d|%v", fi, vi, plan))
+						report(judge(fams, baseV, baseV, plan, occs, o0, o))
+					}
+				}
+				c.Floor("determinism-pairs-big-families")
+			}
+		}
+	}
+	_ = bigPairs
 	if !seamLive {
 		c.Note("determinism: no occurrence with >= 2 keys seen in this shard")
 	}
